@@ -8,11 +8,11 @@ from py_gql import build_schema
 from py_gql.exc import ResolverError
 
 SDL = """
-type Query { _: Int, sub(k: Int): Ev, other: Int, nores: Int }
+type Query { _: Int, sub(k: Int): Ev, other: Int, nores: Int, echo: String, tick: Int! }
 type Mutation { m: Int }
 type Ev { idx: Int!, n: Int!, v: Int, s: String!, o: Inner, on: Inner!, l: [Int!], lo: [Inner!], f: Float }
 type Inner { a: Int, b: Int!, deep: Inner }
-type Subscription { sub(k: Int): Ev, other: Int, nores: Int }
+type Subscription { sub(k: Int): Ev, other: Int, nores: Int, echo: String, tick: Int! }
 """
 
 
@@ -25,7 +25,51 @@ def _lookup(root, info):
                 raise ResolverError(r[0], extensions=r[1])
             raise ResolverError(r[0])
         return root.get(name)
-    return None
+    if isinstance(root, EvObj):
+        return getattr(root, name, None)
+    return None        # None, 0, "", False, [] ... as root value: every field resolves to null
+
+
+class EvObj(object):
+    """an event that is a plain object (attributes instead of keys)"""
+
+    def __init__(self, **kw):
+        self.__dict__.update(kw)
+
+
+def describe(root):
+    """what the `echo` root field reports about the event it was given"""
+    if root is None:
+        return "none"
+    if isinstance(root, bool):
+        return "bool:%s" % root
+    if isinstance(root, int):
+        return "int:%d" % root
+    if isinstance(root, str):
+        return "str:" + root
+    if isinstance(root, list):
+        return "list:%d" % len(root)
+    if isinstance(root, dict):
+        return "dict:" + ",".join(sorted(root))
+    return "obj:" + type(root).__name__
+
+
+def echo_resolver(root, ctx, info, **args):
+    return describe(root)
+
+
+async def echo_resolver_async(root, ctx, info, **args):
+    await asyncio.sleep(0)
+    return describe(root)
+
+
+def tick_resolver(root, ctx, info, **args):
+    return 1          # ignores the event altogether
+
+
+async def tick_resolver_async(root, ctx, info, **args):
+    await asyncio.sleep(0)
+    return 1
 
 
 def sync_resolver(root, ctx, info, **args):
@@ -50,6 +94,9 @@ def get_schema(flavour):
         r = async_resolver if flavour == "async" else sync_resolver
         for tn, fn in [("Ev", "v"), ("Ev", "o"), ("Inner", "b"), ("Ev", "n"), ("Ev", "lo")]:
             schema.register_resolver(tn, fn, r)
+        for tn in ("Query", "Subscription"):
+            schema.register_resolver(tn, "echo", echo_resolver_async if flavour == "async" else echo_resolver)
+            schema.register_resolver(tn, "tick", tick_resolver_async if flavour == "async" else tick_resolver)
         schema.validate()
         _CACHE[flavour] = schema
     return _CACHE[flavour]
@@ -61,6 +108,8 @@ def set_subscription_resolvers(schema, sub_resolver):
     st.field_map["sub"].subscription_resolver = sub_resolver
     st.field_map["other"].subscription_resolver = sub_resolver
     st.field_map["nores"].subscription_resolver = None
+    st.field_map["echo"].subscription_resolver = sub_resolver
+    st.field_map["tick"].subscription_resolver = sub_resolver
     # a query field that also has a subscription resolver: a query operation must still be refused
     schema.query_type.field_map["sub"].subscription_resolver = sub_resolver
 
@@ -91,8 +140,29 @@ VARIANTS = {
 }
 VARIANT_NAMES = sorted(VARIANTS)
 
+# events that are not {"sub": ...} dicts at all: payload-less and falsy events, bare containers, objects
+RAW_EVENTS = {
+    "raw_none": lambda k: None,
+    "raw_zero": lambda k: 0,
+    "raw_int": lambda k: k + 1,
+    "raw_empty_str": lambda k: "",
+    "raw_str": lambda k: "msg%d" % k,
+    "raw_false": lambda k: False,
+    "raw_true": lambda k: True,
+    "raw_empty_list": lambda k: [],
+    "raw_empty_dict": lambda k: {},
+    "raw_dict_other": lambda k: {"unrelated": k},
+    "raw_obj": lambda k: EvObj(sub=ev_ok(k)),
+    "raw_obj_null": lambda k: EvObj(sub=None),
+    "raw_obj_bare": lambda k: EvObj(),
+}
+RAW_NAMES = sorted(RAW_EVENTS)
+FALSY_RAW = ["raw_none", "raw_zero", "raw_empty_str", "raw_false", "raw_empty_list", "raw_empty_dict"]
+
 
 def make_event(variant, k):
+    if variant in RAW_EVENTS:
+        return RAW_EVENTS[variant](k)
     return {"sub": VARIANTS[variant](k)}
 
 
@@ -104,7 +174,12 @@ SELECTIONS = [
     "subscription S($k: Int = 2) { sub(k: $k) { idx ... on Ev { v lo { b } } } }",
     "subscription {\n  sub(k: 1) {\n    idx\n    nn: n\n    vv: v\n    l\n  }\n}",
     "subscription { sub { idx @include(if: true) n @skip(if: true) v } }",
+    "subscription { echo }",                  # the resolver reports the event it was given
+    "subscription { tick }",                  # the resolver ignores the event
+    "subscription E { e: echo @include(if: true) }",
 ]
+SEL_ECHO, SEL_TICK, SEL_ECHO_ALIAS = 7, 8, 9
+assert SELECTIONS[SEL_ECHO] == "subscription { echo }"
 
 # refusals: (label, text, runtime, operation_name, variables, facts)
 #   facts = (operation_found, variables_ok, is_subscription, runtime_streams, root_fields, field_defined, has_resolver)
